@@ -382,7 +382,11 @@ pub fn label_list() -> Vec<Label> {
     for s in LEXER_KEYWORDS.iter().chain(TYPE_WORDS.iter()).chain(ODD_NAMES.iter()) {
         ls.push(named(s));
     }
-    for n in [0u32, 1, 2, 4294967295, refmodel::hash::idl_hash("a")] {
+    // ids of every decimal length (the printers group digits), at the group boundaries
+    for n in [
+        0u32, 1, 2, 4294967295, refmodel::hash::idl_hash("a"), 42, 999, 1000, 1234, 12345, 99999, 100000, 123456, 999999, 1000000, 1234567, 12345678, 99999999,
+        100000000, 123456789, 999999999, 1000000000,
+    ] {
         ls.push(Label::Id(n));
         ls.push(Label::Unnamed(n));
     }
